@@ -555,3 +555,93 @@ Definition f18c_state : lstate :=
 Lemma f18c_loser_early : rev (ltrace f18c_state) =
   [ESyncBegin 0; EStopBegin 1; EStopBegin 2; EStopReturn 2 true; ESinkBegin 0 false].
 Proof. vm_compute. reflexivity. Qed.
+
+Lemma f18c_loser : chk_literal (rev (ltrace f18c_state)) = Some ClLoserEarly /\ chk_state f18c_state = None.
+Proof. vm_compute. auto. Qed.
+
+Definition example_run : lstate :=
+  lrun (cfg_of true true true false false)
+       ([(0,0); (3,0)] ++ rep 10 (0,0) ++ rep 4 (1,0) ++ rep 10 (4,0) ++ rep 5 (5,0) ++ [(0,3); (0,0)]
+        ++ [(1,1); (1,0); (2,1); (2,0)] ++ rep 3 (5,0))
+       (linit 4 [[]] [[APanic]] [RProcessor; RWorker; RWorker; RProducer 7; RSync; RStopper]).
+Lemma example_run_ok :
+  chk_state example_run = None /\ joined (sh example_run) = true /\
+  In (ESinkBegin 4 false) (ltrace example_run) /\ In (EStopReturn 5 true) (ltrace example_run).
+Proof. vm_compute. intuition. Qed.
+
+(* ------------------------------------------------------------------ the lifecycle counter, without the monitor *)
+Definition lifeA (st : lstate) : Prop := life (sh st) = cnt lweight (ths st) + tokens (sh st).
+Lemma lifeA_step : forall c tid ch st st', lifeA st -> lstep c tid ch st = Some st' -> lifeA st'.
+Proof.
+  intros c tid ch st st' A H. unfold lstep in H.
+  destruct (nth_error (ths st) tid) as [th|] eqn:Hn; try discriminate.
+  destruct (ltstep c tid ch th (sh st)) as [[[th' S'] ev]|] eqn:Hs; try discriminate.
+  inversion H; subst; clear H. unfold lifeA in *. simpl.
+  pose proof (cnt_set_nth lweight _ _ _ th' Hn) as E. pose proof (cnt_ge lweight _ _ _ Hn) as G.
+  destruct (tstep_inv _ _ _ _ _ _ _ _ Hs) as [[i [rest [code' [Hc [Hi E']]]]]|[Hc [p' [code' [Hp E']]]]]; subst th'; simpl in E.
+  - destruct (i_weight _ _ _ _ _ _ _ _ Hi) as [L T]. lia.
+  - assert (W : lweight (t_pc th) <= life (sh st)) by lia. pose proof (p_weight _ _ _ _ _ _ _ _ _ _ Hp W). lia.
+Qed.
+Lemma lifeA_run : forall c sched st, lifeA st -> lifeA (lrun c sched st).
+Proof.
+  intros c sched. induction sched as [|e r IH]; intros st A; simpl; auto. apply IH.
+  unfold lstep_or_skip. destruct (lstep c (fst e) (snd e) st) eqn:E; auto. eapply lifeA_step; eauto.
+Qed.
+Lemma lifeA_init : forall cap0 async sync roles, lifeA (linit cap0 async sync roles).
+Proof. intros. unfold lifeA. simpl. rewrite total_weight_cnt. lia. Qed.
+
+(* ------------------------------------------------------------------ F11 is permanent *)
+Lemma p_lock : forall c tid ch p a S p' code' S' ev,
+  lpstep c tid ch p a S = Some (p', code', S', ev) -> readers S' = readers S /\ writer S' = writer S.
+Proof. intros c tid ch p a S p' code' S' ev H. inv_p H; simpl; auto. Qed.
+
+Lemma In_remove1_neq : forall t t' l, t <> t' -> In t l -> In t (lremove1 t' l).
+Proof.
+  induction l as [|x l IH]; simpl; intros Ne H; auto. destruct (Nat.eqb x t') eqn:E.
+  - apply Nat.eqb_eq in E. destruct H; [congruence|auto].
+  - destruct H; [left; auto|right; auto].
+Qed.
+
+Lemma i_readers_other : forall c tid' i rest S code' S' ev t,
+  listep c tid' i rest S = Some (code', S', ev) -> t <> tid' -> In t (readers S) -> In t (readers S').
+Proof.
+  intros c tid' i rest S code' S' ev t H Ne Hin. inv_i H; simpl in *; auto; try (apply In_remove1_neq; auto).
+  all: try (rewrite Heql in Hin; contradiction).
+  all: destruct sync; simpl; auto.
+Qed.
+
+Lemma stuck_forever : forall c tid th r, t_code th = ILock :: r -> forall sched st,
+  nth_error (ths st) tid = Some th -> In tid (readers (sh st)) ->
+  nth_error (ths (lrun c sched st)) tid = Some th /\ In tid (readers (sh (lrun c sched st))).
+Proof.
+  intros c tid th r Hc sched. induction sched as [|e rs IH]; intros st Hn Hin; simpl; auto.
+  apply IH; unfold lstep_or_skip; destruct (lstep c (fst e) (snd e) st) as [st'|] eqn:E; auto; unfold lstep in E;
+    destruct (nth_error (ths st) (fst e)) as [th1|] eqn:Hn1; try discriminate;
+    destruct (ltstep c (fst e) (snd e) th1 (sh st)) as [[[th' S'] ev]|] eqn:Hs; try discriminate;
+    inversion E; subst; clear E; simpl.
+  - destruct (Nat.eq_dec (fst e) tid) as [Ee|Ne].
+    + exfalso. rewrite Ee in *. rewrite Hn in Hn1. inversion Hn1; subst th1. unfold ltstep in Hs. rewrite Hc in Hs. simpl in Hs.
+      destruct (writer (sh st)); try discriminate. destruct (readers (sh st)); [contradiction|discriminate].
+    + rewrite nth_error_set_nth_neq; auto.
+  - destruct (Nat.eq_dec (fst e) tid) as [Ee|Ne].
+    + exfalso. rewrite Ee in *. rewrite Hn in Hn1. inversion Hn1; subst th1. unfold ltstep in Hs. rewrite Hc in Hs. simpl in Hs.
+      destruct (writer (sh st)); try discriminate. destruct (readers (sh st)); [contradiction|discriminate].
+    + destruct (tstep_inv _ _ _ _ _ _ _ _ Hs) as [[i [rest [code' [Hc1 [Hi E']]]]]|[Hc1 [p' [code' [Hp E']]]]].
+      * eapply i_readers_other; eauto.
+      * destruct (p_lock _ _ _ _ _ _ _ _ _ _ Hp) as [R _]. rewrite R. auto.
+Qed.
+
+Lemma f11_forever : forall sched,
+  let st := lrun (cfg_of false true true false false) sched (f11_state false) in
+  nth_error (ths st) 0 = nth_error (ths (f11_state false)) 0 /\ 1 <= life (sh st).
+Proof.
+  intros sched st.
+  assert (H0 : exists th r, nth_error (ths (f11_state false)) 0 = Some th /\ t_code th = ILock :: r /\ t_pc th = SyBusyT
+                            /\ In 0 (readers (sh (f11_state false)))).
+  { vm_compute. eexists. eexists. repeat split; eauto. }
+  destruct H0 as [th [r [Hn [Hc [Hp Hin]]]]].
+  destruct (stuck_forever (cfg_of false true true false false) 0 th r Hc sched _ Hn Hin) as [N1 _]. fold st in N1.
+  split. { rewrite N1, Hn. reflexivity. }
+  assert (A : lifeA st). { apply lifeA_run. unfold f11_state. apply lifeA_run. apply lifeA_init. }
+  unfold lifeA in A. pose proof (cnt_ge lweight _ _ _ N1) as G. rewrite Hp in G. simpl in G. lia.
+Qed.
